@@ -11,6 +11,7 @@ package main
 import (
 	"bytes"
 	"encoding/json"
+	"errors"
 	"fmt"
 	"math/rand"
 	"time"
@@ -218,6 +219,29 @@ func (t *trio) unseal(data []byte, rel string, payload []byte) (ok, same, panick
 			return
 		}
 		ok = true
+		same = bytes.Equal(f.MessageData(), payload)
+	})
+	return
+}
+
+// unsealDup is unseal as the router's ping parser sees it: a hop ping whose Unseal fails with "immediate duplicate"
+// is handed on to its handler all the same (announcements reach a router once per peer) - dup reports that.
+func (t *trio) unsealDup(data []byte, rel string, payload []byte) (ok, same, dup, panicked bool) {
+	buf := append([]byte(nil), data...)
+	panicked, _, _ = vf.NoPanic(func() {
+		f, err := t.bldR.ParseFrame(buf, nil, 0)
+		if err != nil {
+			return
+		}
+		err = f.Unseal(t.sessionFor(rel))
+		switch {
+		case err == nil:
+			ok = true
+		case (f.MessageType() == frame.RouterHopPing || f.MessageType() == frame.RouterHopPingDeprecated) && errors.Is(err, state.ErrImmediateDuplicateFrame):
+			dup = true
+		default:
+			return
+		}
 		same = bytes.Equal(f.MessageData(), payload)
 	})
 	return
@@ -542,10 +566,10 @@ func run(c *vf.Ctx) {
 					mut = append(mut, r)
 				}
 			}
-			ok, same, panicked, _ := t.unseal(data, rel, p.payload)
+			ok, same, dup, panicked := t.unsealDup(data, rel, p.payload)
 			c.Eval(1)
 			events = append(events, map[string]any{"ev": "unseal", "h": hid(rel), "cls": cls, "mut": mut, "rel": rel,
-				"seq": int(p.seq), "ok": ok && !panicked, "same": same, "clear": p.mt.IsEncrypted() && clearOnWire(p.wire, p.payload), "panic": panicked})
+				"seq": int(p.seq), "ok": ok && !panicked, "dup": dup && !panicked, "same": same, "clear": p.mt.IsEncrypted() && clearOnWire(p.wire, p.payload), "panic": panicked})
 		}
 	}
 	rejectAt, inv, tres, err := c.TraceCheck("FrameSeal_Trace", "FrameSeal_Trace.cfg", events, vf.TLCOpts{Timeout: 20 * time.Minute})
